@@ -88,8 +88,12 @@ def cmd_check(args):
     seed = args.seed if args.seed is not None else int(os.environ.get("VERIF_SEED", "0") or 0)
     t0 = time.time()
     mod = importlib.import_module("engine.props." + prop)
-    evidence_path = os.path.join(EVID, prop + ".json")
-    os.makedirs(EVID, exist_ok=True)
+    evid_dir = EVID
+    if os.path.realpath(build.repo()) != "/repo":
+        # sensitivity runs against a mutated scratch copy must never overwrite the real evidence
+        evid_dir = os.path.join(build.BUILD, "evidence-scratch")
+    evidence_path = os.path.join(evid_dir, prop + ".json")
+    os.makedirs(evid_dir, exist_ok=True)
     try:
         th, so = build.macro()
         build.prune_cache()
